@@ -122,9 +122,9 @@ var callDefs = map[string]callDef{
 	"a1": {"A", "B"}, "a2": {"A", "B"}, "b1": {"B", "A"}, "b2": {"B", "A"},
 	"c1": {"A", "L"}, "c2": {"A", "L"}, "d1": {"B", "L"},
 }
-var listenDefs = map[string]string{"l1": "L", "l2": "L"}
+var listenDefs = map[string]string{"l1": "L", "l2": "L", "l3": "L"}
 var callNames = []string{"a1", "a2", "b1", "b2", "c1", "c2", "d1"}
-var listenNames = []string{"l1", "l2"}
+var listenNames = []string{"l1", "l2", "l3"}
 
 type call struct {
 	name    string
